@@ -1467,12 +1467,27 @@ impl<'a> HistoryIterator<'a> {
 		self.inner.value_encoded()
 	}
 
+	// The same version can be present in two sources at once: after a crash
+	// between the in-place update of the version index and the manifest switch of
+	// the same flush, recovery replays the commit log into a memtable while the
+	// index already holds those versions. Identical entries are adjacent in the
+	// merged order; step over the repeats so that every version is listed once.
 	fn inner_next(&mut self) -> Result<bool> {
-		self.inner.next()
+		let prev = self.inner.valid().then(|| self.inner.key().encoded().to_vec());
+		let mut ok = self.inner.next()?;
+		while ok && prev.as_deref() == Some(self.inner.key().encoded()) {
+			ok = self.inner.next()?;
+		}
+		Ok(ok)
 	}
 
 	fn inner_prev(&mut self) -> Result<bool> {
-		self.inner.prev()
+		let prev = self.inner.valid().then(|| self.inner.key().encoded().to_vec());
+		let mut ok = self.inner.prev()?;
+		while ok && prev.as_deref() == Some(self.inner.key().encoded()) {
+			ok = self.inner.prev()?;
+		}
+		Ok(ok)
 	}
 
 	// --- Bounds checking ---
